@@ -24,7 +24,7 @@ import (
 	"github.com/tigerwill90/fox"
 )
 
-const rule = "cases = (panic value in 11 kinds incl. wrapped http.ErrAbortHandler and net.OpError variants) x (response progress: nothing, informational header, final header, partial body) x (handler kind: route, inner route middleware, no-route, no-method, options) " +
+const rule = "cases = (panic value in 11 kinds incl. wrapped http.ErrAbortHandler and net.OpError variants) x (response progress: nothing, informational header, final header, partial body, flushed) x (handler kind: route, inner route middleware, route reached by ignoring a trailing slash, no-route, no-method, options) " +
 	"x (credential header names in canonical, lower-case, upper-case and mixed capitalisation set directly in the header map, plus ordinary headers); the product is enumerated completely; " +
 	"plus a panic after every step of Updates and View functions; distinct by the tuple; non-trivial always"
 
@@ -61,6 +61,12 @@ func (u *under) Write(b []byte) (int, error) {
 	return len(b), nil
 }
 
+// FlushError makes the underlying writer a flusher of the error-returning kind (like a real net/http response).
+func (u *under) FlushError() error {
+	u.log = append(u.log, "flush")
+	return nil
+}
+
 type custom struct{ s string }
 
 type pv struct {
@@ -92,8 +98,8 @@ var values = []pv{
 	{"net.OpError without syscall error", func() any { return &net.OpError{Op: "read", Net: "tcp", Err: errors.New("broken pipe")} }, false, false},
 }
 
-var progress = []string{"nothing", "informational", "header", "partial-body"}
-var kinds = []string{"route", "route-middleware", "noroute", "nomethod", "options"}
+var progress = []string{"nothing", "informational", "header", "partial-body", "flushed"}
+var kinds = []string{"route", "route-middleware", "route-ignored-slash", "noroute", "nomethod", "options"}
 
 var sensitive = []string{"Authorization", "Proxy-Authorization", "Cookie", "Set-Cookie", "X-CSRF-Token", "X-Vault-Token"}
 
@@ -127,6 +133,8 @@ func doPanic(c fox.Context) {
 	case "partial-body":
 		c.Writer().WriteHeader(202)
 		_, _ = c.Writer().Write([]byte("partial"))
+	case "flushed":
+		_ = c.Writer().FlushError() // commits the implicit 200 header
 	}
 	if p.value.make == nil {
 		var m map[string]int
@@ -151,6 +159,7 @@ func build(cap *capture) *fox.Router {
 	f.MustHandle("GET", "/m/{id}", ok, fox.WithMiddleware(func(next fox.HandlerFunc) fox.HandlerFunc {
 		return func(c fox.Context) { doPanic(c); next(c) }
 	}))
+	f.MustHandle("GET", "/ig/{id}/", func(c fox.Context) { doPanic(c); ok(c) }, fox.WithIgnoreTrailingSlash(true))
 	f.MustHandle("POST", "/only-post", ok)
 	f.MustHandle("GET", "/fine/{a}", ok)
 	return f
@@ -193,6 +202,8 @@ func one(run *kit.Run, f *fox.Router, cap *capture, v pv, pr, kind, hname, secre
 	switch kind {
 	case "route-middleware":
 		path, wantRoute, wantParams = "/m/9", "/m/{id}", []string{"id=9"}
+	case "route-ignored-slash":
+		path, wantRoute, wantParams = "/ig/5", "/ig/{id}/", []string{"id=5"}
 	case "noroute":
 		path, wantRoute, wantParams = "/nothing/here", "NoRouteHandler", nil
 	case "nomethod":
@@ -227,13 +238,13 @@ func one(run *kit.Run, f *fox.Router, cap *capture, v pv, pr, kind, hname, secre
 		fail("escaped", "a panic escaped ServeHTTP: %v", escaped)
 	}
 	// client-visible result
-	sent := map[string]string{"nothing": "", "informational": "header 103", "header": "header 202", "partial-body": `header 202; body "partial"`}[pr]
+	sent := map[string]string{"nothing": "", "informational": "header 103", "header": "header 202", "partial-body": `header 202; body "partial"`, "flushed": "header 200; flush"}[pr]
 	switch {
 	case v.abort:
 		if log != sent {
 			fail("response", "after re-raising the abort the response must be left as the handler left it (%q), the underlying writer saw %q", sent, log)
 		}
-	case pr == "header" || pr == "partial-body":
+	case pr == "header" || pr == "partial-body" || pr == "flushed":
 		if log != sent {
 			fail("response", "the response had been started (%q) and must be left untouched, the underlying writer saw %q", sent, log)
 		}
